@@ -418,8 +418,10 @@ func c08RingJob(r *mon.R, sn string, rep, n int, light bool) {
 					d["mut_msg"], d["mut_ring"], d["mut_scope"], d["mut_sig"] = mon.Hex(c.msg), rh, c08ScopeStr(c.scope), mon.Hex(c.sig)
 					return d
 				})
-				c08Sample(r, "ring/"+mode+"/"+c.class, func() any { return map[string]any{"scheme": "anon", "suite": sn, "n": n, "mine": mine, "mode": mode, "class": c.class, "variant": c.pos,
-					"demand": []string{"accept", "reject", "recorded-only"}[c.demand], "classification": c.why, "accepted": o.accepted, "error": c08Short(o.err)} })
+				c08Sample(r, "ring/"+mode+"/"+c.class, func() any {
+					return map[string]any{"scheme": "anon", "suite": sn, "n": n, "mine": mine, "mode": mode, "class": c.class, "variant": c.pos,
+						"demand": []string{"accept", "reject", "recorded-only"}[c.demand], "classification": c.why, "accepted": o.accepted, "error": c08Short(o.err)}
+				})
 			}
 
 			// ---- linkage relations
